@@ -263,17 +263,28 @@ pub fn run(ctx: &Ctx, profile: Profile) -> i32 {
         Profile::C01 | Profile::C08 => ctx.runs(16, 600),
         _ => 0,
     };
+    // the largest blocks the code supports (a transfer costs several seconds): C01 only
+    let n_giant: u64 = match profile {
+        Profile::C01 => ctx.runs(4, 60),
+        _ => 0,
+    };
     let (acc, fail) = par_fold(
         n,
         ctx.workers,
-        if n_xxl > 0 { 8 } else { 64 },
+        if n_xxl > 0 { 4 } else { 64 },
         |run, acc: &mut Acc| {
             // the first few runs of C01 and C08 are very large single blocks (3000..9000 symbols):
             // few, because each costs about a second, but they reach the multi-word dense tail of the
             // sparse back-end that no block below ~4000 symbols reaches
-            let out = if run < n_xxl {
+            let out = if run < n_giant {
+                acc.probes.inc("shape_giant_block");
+                simulate_band(run_seed(seed, stream + 3000, run), profile, oracles, false, 20000, 56403)
+            } else if run < n_giant + n_xxl {
                 acc.probes.inc("shape_very_large_block");
                 simulate_band(run_seed(seed, stream + 1000, run), profile, oracles, false, 3000, 9000)
+            } else if run < n_giant + 2 * n_xxl {
+                acc.probes.inc("shape_large_block");
+                simulate_band(run_seed(seed, stream + 2000, run), profile, oracles, false, 700, 1700)
             } else {
                 simulate(run_seed(seed, stream, run), profile, oracles, false, max_k)
             };
@@ -378,6 +389,10 @@ pub fn run(ctx: &Ctx, profile: Profile) -> i32 {
     }
     if n_xxl > 0 {
         probes.add("shape_very_large_block", acc.probes.get("shape_very_large_block"));
+        probes.add("shape_large_block", acc.probes.get("shape_large_block"));
+    }
+    if n_giant > 0 {
+        probes.add("shape_giant_block", acc.probes.get("shape_giant_block"));
     }
     if violations.is_empty() {
         for z in probes.zeros() {
